@@ -76,6 +76,7 @@ class Oracle:
         self.tell_time = [dict() for _ in range(n)]
         self.tick = 0
         self.child_reproposed = 0
+        self.tainted = [False] * n
         self.stale_a = [False] * n        # tell_pending since the last tell          (F2a trigger)
         self.stale_b = [False] * n        # remove_unfinished since the last tell     (F2b trigger, losses)
         self.stale_b_ask = [False] * n    # ... since the last tell / tell_pending    (F2b trigger, ask cache)
@@ -151,6 +152,7 @@ class Oracle:
                              f"ask returned ({i},{p!r}) which child {i} evaluated after last proposing it")
                 else:
                     self.child_reproposed += 1      # the child's own ask proposed a point it already has (LearnerND)
+                    self.tainted[i] = True          # its pending set is no longer predictable from the history
             if not commit or k >= len(self.scans):
                 continue
             pre = self.scans[k]
@@ -192,8 +194,8 @@ class Oracle:
 
     def on_tell(self, i, p, y):
         hp = W.hashable(self.kind, p)
-        if self.kind in ("avg",) and hp in self.told[i]:
-            pass                                  # AverageLearner ignores a second result
+        if self.kind in ("avg", "lnd") and hp in self.told[i]:
+            pass                                  # AverageLearner / LearnerND ignore a second result
         else:
             self.told[i][hp] = y
         self.pend[i].discard(hp)
@@ -208,6 +210,7 @@ class Oracle:
 
     def on_remove(self):
         self.pend = [set() for _ in range(self.n)]
+        self.tainted = [False] * self.n
         self.stale_b = [True] * self.n
         self.stale_b_ask = [True] * self.n
 
@@ -232,8 +235,9 @@ class Oracle:
             if d != self.told[i]:
                 self.err("C15:routing_tell", f"child {i} data {sorted(d.items())[:6]} != what was told for it {sorted(self.told[i].items())[:6]}")
             pe = {W.hashable(kind, p) for p in c.pending_points}
-            if pe != self.pend[i] - set(self.told[i]):
-                self.err("C15:routing_tell_pending", f"child {i} pending {sorted(pe)[:6]} != expected {sorted(self.pend[i] - set(self.told[i]))[:6]}")
+            want = self.pend[i] - set(self.told[i])
+            if pe != want and not self.tainted[i]:
+                self.err("C15:routing_tell_pending", f"child {i} pending {sorted(pe)[:6]} != expected {sorted(want)[:6]}")
         union = {(i, p): v for i, c in enumerate(self.children) for p, v in c.data.items()}
         if dict(b.data) != union:
             self.err("C15:aggregates", "data is not the labelled union of the children's data")
@@ -567,6 +571,23 @@ def run(chk: Check) -> int:
         ml = maxlen if kind != "lnd" else min(maxlen, 22)
         res = drive(spec, gen_history(rng, ml, rng.random() < 0.06), rng)
         add(spec, res, f"seed{chk.seed}/{k}")
+    exhaustive = 0
+    if not chk.quick:
+        # every op sequence of length <= 4 over a 9-letter alphabet, after a fixed warm-up, two Learner1D children,
+        # each initial strategy
+        import itertools
+        alphabet = [("ask", 1, True), ("ask", 2, True), ("tell", "outstanding", False), ("tell", "outstanding", True),
+                    ("tell_pending",), ("loss", False), ("loss", True), ("remove_unfinished",), ("strategy", None)]
+        warm = [("ask", 3, True), ("tell", "outstanding", False), ("tell", "outstanding", False)]
+        for st in STRATS:
+            nxt = STRATS[(STRATS.index(st) + 1) % 4]
+            for L in range(1, 5):
+                for word in itertools.product(alphabet, repeat=L):
+                    hist = warm + [("strategy", nxt) if a[0] == "strategy" else a for a in word]
+                    spec = {"kind": "l1d", "nchild": 2, "strategy": st, "npseed": 1, "koff": 0, "size": 60}
+                    res = drive(spec, hist, random.Random(exhaustive))
+                    add(spec, res, f"exhaustive/{st}/{exhaustive}")
+                    exhaustive += 1
     mism, legal, errors = chk.coq_cases("cases", PREAMBLE, "case", cases, "check", "is_legal",
                                         shard=max(8, len(cases) // 16 + 1))
     for e in errors:
@@ -579,7 +600,8 @@ def run(chk: Check) -> int:
                       "histories_stopped": stops, "oracle_strategy_iterations_checked": strat_iter,
                       "legal_histories_per_coq": legal, "cases_compared_in_coq": len(cases),
                       "mismatches": len(mism), "model_repaired_flag": rep,
-                      "F2_probe": {"F2a_repaired": a_ok, "F2b_repaired": b_ok}, "exhaustive": False})
+                      "F2_probe": {"F2a_repaired": a_ok, "F2b_repaired": b_ok},
+                      "exhaustive_small_scope_cases": exhaustive, "exhaustive": False})
     chk.log(f"correspondence: {len(cases)} cases, {len(mism)} mismatches, {legal} legal; oracle signatures {sorted(seen_sig)}")
     return chk.finish(
         rule="histories generated by driving the real BalancingLearner over 1-5 real children of one kind (Learner1D, AverageLearner, "
